@@ -66,6 +66,16 @@ def clockwork_hook(ctx, call, pol, sim_time, workload, pools):
         req = e2e._request(st)
         prior = extra.setdefault(sw["wid"], [])
         free = e2e._shadow_free(sw)
+        # weakest reading of "a worker that can hold the strategy": the state at the decision plus whatever the same answer
+        # evicts there (evictions are applied before placements at one instant).  Loads decided in the same answer are NOT
+        # charged: the policy does not reserve them on its scratch copy either, and a batch that then finds its memory taken
+        # is retried by the simulator -- an inconsistency of the answer, but not a batch on a worker that could not hold it
+        # when it was decided.
+        for q in call["placements"]:
+            if q.placement_type == PT.EVICT_WORK_PROFILE and q.worker_id == sw["wid"]:
+                pent = sw["residents"].get(("profile", id(q.work_profile)))
+                for n, i, amount in (pent or {}).get("alloc", ()):
+                    free[(n, i)] = free.get((n, i), 0) + amount
         for r in prior:
             for (n, i), q in r.items():
                 # 'any' demand of earlier batches: take it from the instances with most room
@@ -79,7 +89,7 @@ def clockwork_hook(ctx, call, pol, sim_time, workload, pools):
         ok = all(sum(v for (n2, i2), v in free.items() if n2 == n) >= q for (n, i), q in req.items())
         if not ok:
             ctx.violate("C15", "batch_does_not_fit_worker", f"t={now}: batch {names} demands {req} on {sw['name']} free {e2e._shadow_free(sw)} minus earlier batches {prior}")
-        prior.append(req)
+        extra[sw["wid"]].append(req)
         for p in ps:
             if id(p.task) in placed_once:
                 ctx.violate("C15", "request_placed_twice", f"{p.task.unique_name} placed at t={placed_once[id(p.task)]} and again at t={now}")
@@ -103,7 +113,8 @@ class ClockworkCheck(E2ECheck):
         return {"csvreader": False, "decision_hooks": [clockwork_hook]}
 
     def mix(self, tier):
-        return [("clockwork", {"max_invocations": 14}, 0.75), ("clockwork", {"max_invocations": 30, "p_preload": 1.0}, 0.25)]
+        return [("clockwork", {"max_invocations": 14}, 0.6), ("clockwork", {"max_invocations": 30, "p_preload": 1.0}, 0.2),
+                ("clockwork", {"max_invocations": 14, "exec_needs_ram": True, "p_preload": 0.2}, 0.45)]
 
     def deciding_counters(self, tot):
         return [("Clockwork invocations", tot.get("cw_invocations", 0), 1500),
